@@ -1,6 +1,6 @@
 (* modelrun command "codegen-x86": the model of the x86-64 code generator against the real one. *)
 From Coq Require Import List ZArith NArith String Bool.
-From SCC Require Import Base.Sexp Lang.AxSyn Model.Backend Model.X86 Model.X86Io Model.RunBase.
+From SCC Require Import Base.Sexp Lang.AxSyn Sem.AxSem Sem.AxTrace Sem.X86Sem Sem.X86Wf Sem.HeapCheck Sem.X86Heap Model.Backend Model.X86 Model.X86Io Model.RunBase.
 Import ListNotations.
 Open Scope string_scope.
 
@@ -21,11 +21,34 @@ Definition x86_tags (cs : list xcode) : string :=
   "nt" ++ (if spill then " spills" else " nospill") ++ (if calls then " print" else "") ++ (if tables then " table" else "")
   ++ " len" ++ n_to_string (N.of_nat (Nat.log2 (List.length cs))).
 
+Definition lin_fuel : nat := 50000.
+Definition x86_outer : nat := 2000.
+Definition x86_inner : nat := 2000.
+
+(* executable form of C06 on the implementation's output: AxCut linear machine vs. the emitted code *)
+Definition sem_check_x86 (p : prog) (cs : list xcode) (argss : list (list Z)) : option string :=
+  fold_left (fun acc args =>
+    match acc with
+    | Some _ => acc
+    | None =>
+        let ref := run_linear lin_fuel p args in
+        match snd ref with
+        | OExit _ =>
+            let got := fst (run_x86 x86_outer x86_inner cs args) in
+            if obs_eqb ref got then None
+            else Some ("class=x86-semantic-mismatch args=" ++ show (sL sZ args) ++ " expected=" ++ show (s_obs ref) ++ " got=" ++ show (s_obs got))
+        | _ => None
+        end
+    end) argss None.
+
+Definition defined_runs (p : prog) (argss : list (list Z)) : nat :=
+  List.length (filter (fun args => defined (run_linear lin_fuel p args)) argss).
+
 Definition codegen_x86_case (i r : sexp) : verdict :=
   match i with
-  | L [Q _; p; lc] =>
-      match g_prog p, getN lc with
-      | Some p, Some lc =>
+  | L [Q _; p; lc; argss] =>
+      match g_prog p, getN lc, getL (getL getZ) argss with
+      | Some p, Some lc, Some argss =>
           let m := x86_compile p lc in
           match r with
           | L [A "PANIC"; Q msg] =>
@@ -37,20 +60,182 @@ Definition codegen_x86_case (i r : sexp) : verdict :=
               match g_xcodes cs, getN n with
               | Some cs, Some n =>
                   let r' := L [L (map s_xcode cs); sN n] in
-                  match m with
-                  | Ok (mc, _, _) =>
-                      match cmp_sexp (s_res_codes m) r' with
-                      | VOk _ => VOk (x86_tags mc)
-                      | v => v
+                  match sem_check_x86 p cs argss with
+                  | Some why => VViol why
+                  | None =>
+                      match m with
+                      | Ok (mc, _, _) =>
+                          match cmp_sexp (s_res_codes m) r' with
+                          | VOk _ => VOk (x86_tags mc ++ " runs" ++ n_to_string (N.of_nat (defined_runs p argss)))
+                          | v => v
+                          end
+                      | Err _ => VDiff (show (s_res_codes m)) (show r')
                       end
-                  | Err _ => VDiff (show (s_res_codes m)) (show r')
                   end
               | _, _ => VBad "rust output unreadable"
               end
           | _ => VBad "rust output shape"
           end
-      | _, _ => VBad "input unreadable"
+      | _, _, _ => VBad "input unreadable"
       end
   | _ => VBad "input shape"
   end.
 Definition run_codegen_x86 : string -> string := run_cases codegen_x86_case.
+
+(* ---------- C09 / C10: the heap invariant at every statement boundary of the emitted code ----------
+   The markers come from the marked model; marked code minus markers must equal the Rust code, so
+   what runs is the implementation's code. *)
+Definition codes_eqb (a b : list xcode) : bool := String.eqb (show (L (map s_xcode a))) (show (L (map s_xcode b))).
+
+(* one argument tuple: Some (Some why) = violation found; Some None = checked and fine (with stats);
+   None = no verdict (reference run undefined, or the two runs are not in lockstep) *)
+Definition heap_one (p : prog) (cs_s : list xcode) (mcs : option (list xcode)) (args : list Z)
+  : option (option string * N * Z * Z) :=
+  let ref := run_linear lin_fuel p args in
+  match snd ref with
+  | OExit _ =>
+      let judge (r : obs * xstate * hstats) : option (option string * N * Z * Z) :=
+        let '(ob, _, st) := r in
+        let blocks := (last_frontier st - HEAP_BASE) / 64 in
+        match first_violation st with
+        | Some why => Some (Some ("class=heap-invariant args=" ++ show (sL sZ args) ++ " at boundary " ++ n_to_string (boundaries st) ++ ": " ++ why), 0%N, 0, 0)
+        | None =>
+            if blocks >? peak_in_use st + 2
+            then Some (Some ("class=heap-footprint args=" ++ show (sL sZ args) ++ " frontier " ++ z_to_string blocks ++ " blocks, peak in use " ++ z_to_string (peak_in_use st)), 0%N, 0, 0)
+            else Some (None, boundaries st, peak_in_use st, blocks)
+        end in
+      let tr := trace_linear lin_fuel p args in
+      let r1 := run_x86_heap_tr x86_outer x86_inner cs_s args tr in
+      let '(ob1, _, st1) := r1 in
+      if obs_eqb ref ob1 && negb (underrun st1) && match pending st1 with [] => true | _ => false end
+      then judge r1
+      else match mcs with
+           | Some mcs =>
+               let r2 := run_x86_heap x86_outer x86_inner mcs args in
+               if obs_eqb ref (fst (fst r2)) then judge r2 else None
+           | None => None
+           end
+  | _ => None
+  end.
+
+Definition heap_x86_case (i r : sexp) : verdict :=
+  match i with
+  | L [Q _; p; lc; argss] =>
+      match g_prog p, getN lc, getL (getL getZ) argss with
+      | Some p, Some lc, Some argss =>
+          match r with
+          | L [A "PANIC"; _] => VSkip "implementation panicked (capacity)"
+          | L [cs; _] =>
+              match g_xcodes_s cs, g_xcodes cs with
+              | Some cs_s, Some cs =>
+                  if negb (match pdefs p with d :: _ => forallb (fun b => match bchi b with Ext => true | _ => false end) (dctx d) | [] => false end)
+                  then VSkip "first definition is not an entry point (non-integer parameters)"
+                  else
+                    let mcs := match x86_compile_marked p lc with
+                               | Ok (mcs, _, _) => if codes_eqb (filter (fun c => negb (is_mark c)) mcs) cs then Some mcs else None
+                               | Err _ => None
+                               end in
+                    let results := map (heap_one p cs_s mcs) argss in
+                    match find (fun x => match x with Some (Some _, _, _, _) => true | _ => false end) results with
+                    | Some (Some (Some why, _, _, _)) => VViol why
+                    | _ =>
+                        let nb := fold_left (fun a x => match x with Some (_, n, _, _) => (a + n)%N | None => a end) results 0%N in
+                        let peak := fold_left (fun a x => match x with Some (_, _, pk, _) => Z.max a pk | None => a end) results 0 in
+                        let fr := fold_left (fun a x => match x with Some (_, _, _, f) => Z.max a f | None => a end) results 0 in
+                        let verdicts := List.length (filter (fun x => match x with Some _ => true | None => false end) results) in
+                        match mcs with
+                        | None => VDiff "marked model code minus markers" ("differs from the implementation's code (see C06); heap invariant checked through the implementation's own statement comments on " ++ n_to_string (N.of_nat verdicts) ++ " runs in lockstep, " ++ n_to_string nb ++ " boundaries, no violation")
+                        | Some _ =>
+                            VOk ((if N.eqb nb 0 then "noruns" else "nt") ++ " boundaries" ++ n_to_string (N.log2 (nb + 1))
+                                 ++ " peak" ++ z_to_string (Z.log2 (peak + 1)) ++ (if fr >? 1 then " allocates" else " noalloc")
+                                 ++ " verdicts" ++ n_to_string (N.of_nat verdicts))
+                        end
+                    end
+              | _, _ => VBad "rust output unreadable"
+              end
+          | _ => VBad "rust output shape"
+          end
+      | _, _, _ => VBad "input unreadable"
+      end
+  | _ => VBad "input shape"
+  end.
+Definition run_heap_x86 : string -> string := run_cases heap_x86_case.
+
+(* ---------- C10: space independent of the number of repetitions ----------
+   `main(n)` builds and drops a structure n times; the allocation frontier after n = 8 and after
+   n = 32 iterations must coincide (and the heap invariant must hold at every boundary). *)
+Definition c10_x86_case (i r : sexp) : verdict :=
+  match i with
+  | L [Q _; p; lc; argss] =>
+      match g_prog p, getL (getL getZ) argss, r with
+      | Some p, Some argss, L [cs; _] =>
+          match g_xcodes_s cs with
+          | Some cs_s =>
+              let runs := map (fun args =>
+                                 let ref := run_linear lin_fuel p args in
+                                 let tr := trace_linear lin_fuel p args in
+                                 let '(ob, _, st) := run_x86_heap_tr x86_outer x86_inner cs_s args tr in
+                                 (args, ref, ob, st)) argss in
+              match find (fun x => let '(_, ref, ob, st) := x in negb (obs_eqb ref ob && defined ref)) runs with
+              | Some (args, ref, ob, _) =>
+                  VSkip ("runs not comparable for args " ++ show (sL sZ args) ++ ": " ++ show (s_obs ref) ++ " vs " ++ show (s_obs ob))
+              | None =>
+                  match find (fun x => let '(_, _, _, st) := x in match first_violation st with Some _ => true | None => false end) runs with
+                  | Some (args, _, _, st) =>
+                      VViol ("class=heap-invariant args=" ++ show (sL sZ args) ++ ": " ++ match first_violation st with Some w => w | None => "" end)
+                  | None =>
+                      let fronts := map (fun x => let '(_, _, _, st) := x in (last_frontier st - HEAP_BASE) / 64) runs in
+                      match fronts with
+                      | [f2; f8; f32] =>
+                          if Z.eqb f8 f32 then VOk ("nt frontier" ++ z_to_string f32 ++ " first" ++ z_to_string f2)
+                          else VViol ("class=heap-footprint-grows frontier after 2/8/32 iterations: " ++ z_to_string f2 ++ "/" ++ z_to_string f8 ++ "/" ++ z_to_string f32 ++ " blocks")
+                      | _ => VBad "expected three iteration counts"
+                      end
+                  end
+              end
+          | None => VBad "rust output unreadable"
+          end
+      | _, _, _ => VBad "input unreadable"
+      end
+  | _ => VBad "input shape"
+  end.
+Definition run_c10_x86 : string -> string := run_cases c10_x86_case.
+
+(* ---------- replay / inspection: observations of both machines on each argument tuple ---------- *)
+Definition show_x86_case (i r : sexp) : verdict :=
+  match i with
+  | L [Q _; p; lc; argss] =>
+      match g_prog p, getL (getL getZ) argss, r with
+      | Some p, Some argss, L [cs; _] =>
+          match g_xcodes cs with
+          | Some cs =>
+              VOk (show (L (map (fun args => L [sL sZ args; s_obs (run_linear lin_fuel p args);
+                                                s_obs (fst (run_x86 x86_outer x86_inner cs args))]) argss)))
+          | None => VBad "rust output unreadable"
+          end
+      | _, _, _ => VBad "input unreadable"
+      end
+  | _ => VBad "input shape"
+  end.
+Definition run_show_x86 : string -> string := run_cases show_x86_case.
+
+(* ---------- C14: assembler-level well-formedness of the implementation's output ---------- *)
+Definition wf_x86_case (i r : sexp) : verdict :=
+  match i, r with
+  | L [Q _; p; lc; _], L [cs; _] =>
+      match g_xcodes cs with
+      | Some cs =>
+          match asm_wf cs with
+          | Some why => VViol ("class=asm-ill-formed " ++ why)
+          | None =>
+              let nlab := List.length (defined_labels cs) in
+              let big := existsb (fun c => match c with MOVI _ i => negb (fits32 i) | _ => false end) cs in
+              VOk ("nt labels" ++ n_to_string (N.log2 (N.of_nat nlab + 1)) ++ (if big then " imm64" else "")
+                   ++ (if existsb (fun c => match c with JMPLN _ => true | _ => false end) cs then " table" else ""))
+          end
+      | None => VBad "rust output unreadable"
+      end
+  | _, L [A "PANIC"; _] => VSkip "implementation panicked (capacity)"
+  | _, _ => VBad "case shape"
+  end.
+Definition run_wf_x86 : string -> string := run_cases wf_x86_case.
